@@ -276,15 +276,18 @@ Definition split_args {A} (vals : list A) (kwn : list string) : list A * list (s
 
 (* func.get_result_kinds(arg_kinds, check) including resolve_args; FixedResultKindsFunction
    returns its kinds without looking at the arguments *)
-Definition call_kinds (check : bool) (s : fsig) (vals : list okind) (kwn : list string) : option (list kind) :=
+Definition call_kinds_gen (rk : fsig -> list okind -> option (list kind))
+           (s : fsig) (vals : list okind) (kwn : list string) : option (list kind) :=
   match s with
   | FFixed _ ks => Some ks
   | _ => let (pos, kw) := split_args vals kwn in
          match resolve (sig_args s) pos kw with
          | None => None
-         | Some a => result_kinds check s a
+         | Some a => rk s a
          end
   end.
+
+Definition call_kinds (check : bool) := call_kinds_gen (result_kinds check).
 
 (* ------------------------------------------------------------------ KindInferenceMapper *)
 
@@ -908,6 +911,28 @@ Definition cexec (C : cfg) (reg : registry) (st : cstore) (s : stmt) : list csto
   | SOther => []
   end.
 
+Fixpoint evars (e : expr) : list string :=
+  match e with
+  | EConst _ => []
+  | EVar x => [x]
+  | ESum l | EProd l | EAnd l | EOr l | EMin l | EMax l => flat_map evars l
+  | EQuot a b | EPow a b | ECmp _ a b | ESub a b => evars a ++ evars b
+  | ENot a => evars a
+  | ECall _ args _ => flat_map evars args
+  end.
+
+Definition in_store (st : cstore) (x : string) : bool :=
+  match alookup st x with Some _ => true | None => false end.
+
+(* every variable the statement reads holds a value (an unknown name evaluates to None in
+   dagrt's EvaluationMapper; dagrt's verify_code / the dependency order exclude such reads) *)
+Definition defined (st : cstore) (s : stmt) : bool :=
+  match s with
+  | SAssign _ _ rhs loops => forallb (in_store (fold_left (fun s i => cset s i CInt) loops st)) (evars rhs)
+  | SCall _ _ args _ => forallb (in_store st) (flat_map evars args)
+  | SOther => true
+  end.
+
 (* run_single_step's finally clause: only persistent names survive a step *)
 Definition keep_persistent (keep : string -> bool) (st : cstore) : cstore :=
   filter (fun p => keep (fst p)) st.
@@ -920,7 +945,7 @@ Inductive creach (C : cfg) (reg : registry) (D : program) (keep : string -> bool
 | cr_refl : forall ph st, creach C reg D keep ph st ph st
 | cr_stmt : forall ph0 st0 ph st stmts s st',
     creach C reg D keep ph0 st0 ph st ->
-    In (ph, stmts) D -> In s stmts -> In st' (cexec C reg st s) ->
+    In (ph, stmts) D -> In s stmts -> defined st s = true -> In st' (cexec C reg st s) ->
     creach C reg D keep ph0 st0 ph st'
 | cr_phase : forall ph0 st0 ph st ph',
     creach C reg D keep ph0 st0 ph st ->
@@ -946,13 +971,27 @@ Section Strict.
   Variable reg : registry.
   Variable G L : tbl.
 
+  Definition nonbool_kind (k : option kind) : bool :=
+    match k with Some KBool => false | Some _ => true | None => false end.
+
+  (* numpy.isnan is elementwise on the unchanged tree: only a scalar argument gives one flag *)
+  Definition sig_ok (s : fsig) (a : list okind) : bool :=
+    match s with
+    | FIsNan => isnan_any C || forallb is_scalar_k a
+    | _ => true
+    end.
+
+  (* the function's own check=True argument test (plus the isnan restriction above) *)
+  Definition result_kinds_strict (s : fsig) (a : list okind) : option (list kind) :=
+    if sig_ok s a then result_kinds true s a else None.
+
   Definition call_ok (f : string) (args : list expr) (kwn : list string) : bool :=
     match rlookup reg f with
     | None => false
     | Some s =>
         match arg_kinds (map (kmap C reg G L) args) with
         | Ok aks => forallb (fun k => negb (is_none_k k)) aks &&
-                    match call_kinds true s aks kwn with Some _ => true | None => false end
+                    match call_kinds_gen result_kinds_strict s aks kwn with Some _ => true | None => false end
         | Err _ => false
         end
     end.
@@ -963,9 +1002,9 @@ Section Strict.
     match e with
     | EConst c => match c with CInt | CReal | CComplex => true | _ => false end
     | EVar x => match kmap C reg G L (EVar x) with Ok None => false | _ => true end
-    | ESum l => Nat.leb 2 (List.length l) && forallb side_ok l &&
-                forallb (fun ch => match kind_of (kmap C reg G L ch) with Some _ => true | None => false end) l
-    | EProd l => Nat.leb 2 (List.length l) && forallb side_ok l
+    | ESum l => forallb side_ok l && forallb (fun ch => nonbool_kind (kind_of (kmap C reg G L ch))) l
+    | EProd l => negb (match l with [] => true | _ => false end) && forallb side_ok l &&
+                 forallb (fun ch => nonbool_kind (kind_of (kmap C reg G L ch))) l
     | EQuot a b => side_ok a && side_ok b &&
                    negb (match kind_of (kmap C reg G L a), kind_of (kmap C reg G L b) with
                          | Some KInt, Some KInt => true | _, _ => false end)
